@@ -13,6 +13,13 @@ CHECKS = {
              'Exhaustive over all 1-op and 2-op scripts of the complete opcode alphabet (thorough), model-steered deep scripts, byte-level mutations for the refusal clause. Held on the executions observed, not a proof.',
         note='trusted: ref/script.py (written from the BIPs, anchored on chain data), the native harness only records public fields of Instance/InterpreterEnv; signature opcodes are covered by C02',
         ref='5 C01'),
+    'C10': dict(
+        technique='runtime monitoring: lock-step reference-model monitor over Instance::step() traces of boundary scripts (ASan+UBSan build)',
+        text='Exploration over a deterministic boundary matrix: for each consensus limit (520-byte push, 1000 stack+altstack items, 201 counted ops incl. multisig key counts, 20 multisig keys, 10,000-byte scripts, 4/5-byte numeric operands) '
+             'and each way of reaching it, scripts at L-1, L, L+1 in BASE / WITNESS_V0 / TAPSCRIPT are executed step by step by the real interpreter and compared with the reference interpreter (same monitor as C01); '
+             'plus seeded random perturbations around each boundary. The evidence contains the observed matrix cell => outcome.',
+        note='trusted: ref/script.py encodes the limits as the BIPs state them; lock-time success paths need a transaction and are covered by C02/C03',
+        ref='5 C10'),
     'C17': dict(
         technique='runtime monitoring: reference-function monitor over one-op Instance::step() traces, exhaustive over a boundary operand pool (ASan+UBSan build)',
         text='Exploration, exhaustive over a fixed boundary pool: each of the 15 re-enabled opcodes is executed by the real interpreter (allow_disabled_opcodes on/off, executed / unexecuted branch) on every operand tuple of a 44-value pool '
